@@ -6,6 +6,7 @@
   every schedule.
 -/
 import Proofs.Lemmas.Mask
+import Proofs.Lemmas.EquivarianceMask
 import Proofs.Lemmas.ComposeMask
 import Proofs.Lemmas.ComposeGni
 
@@ -77,6 +78,44 @@ theorem getNextImfMask_zero_amp (X : Sig → Sig × Bool) (unit : Nat → Sig) (
     rw [hl _ (fun i hi => List.mem_range.mp hi), any_range_const p hp]
   rw [hany]
 
+/-! ### the documented waveform: equally spaced phases of a sinusoid of the mask frequency
+
+  `Mask.waveMask cosTurn n z amp p i` is the i-th mask of `get_next_imf_mask(X, z, amp, nphases = p)` on `n` samples.
+  The only oracle is `cosTurn x = cos(2π·x)` (the harness supplies its values on the points the run needs); the
+  phase grid `i/p` of a turn, the argument `z·t + i/p` and the amplitude factor are definitions of the model. -/
+
+/-- Equally spaced phases: phase 0 is 0, consecutive phases are `1/p` of a turn (`2π/p`) apart, and the `p`
+    phases lie in `[0, 1)` turn — `linspace(0, 2π, p+1)[:p]`. -/
+theorem mask_phases_equally_spaced (p : Nat) (hp : 0 < p) :
+    maskPhase p 0 = 0 ∧ (∀ i, maskPhase p (i + 1) - maskPhase p i = 1 / (p : Rat)) ∧
+    ∀ i, i < p → 0 ≤ maskPhase p i ∧ maskPhase p i < 1 :=
+  maskPhase_grid p hp
+
+/-- **The mask waveform.**  Mask `i` at sample `t` is `amp · cos(2π·z·t + 2π·i/p)` = `amp · cosTurn (z·t + i/p)`:
+    a sinusoid of frequency `z` cycles per sample, amplitude `amp`, phase `i/p` of a turn; one value per sample. -/
+theorem mask_phase_grid (cosTurn : Rat → Rat) (n : Nat) (z amp : Rat) (p i : Nat) :
+    waveMask cosTurn n z amp p i
+      = (List.range n).map (fun (t : Nat) => amp * cosTurn (z * (t : Rat) + (i : Rat) / (p : Rat))) ∧
+    (waveMask cosTurn n z amp p i).length = n ∧
+    ∀ t, t < n → Sig.sval (waveMask cosTurn n z amp p i) t = amp * cosTurn (z * (t : Rat) + (i : Rat) / (p : Rat)) :=
+  ⟨by simp [waveMask, unitOf, Sig.smul, maskPhase], waveMask_length cosTurn n z amp p i,
+   fun t ht => sval_waveMask cosTurn n z amp p i t ht⟩
+
+/-- The masked IMF of `get_next_imf_mask(X, z, amp, nphases = p)`: the mean over the `p` equally spaced phases of
+    (extraction of signal plus sinusoidal mask, minus that same mask) — `getNextImfMask_spec` with the waveform. -/
+theorem getNextImfMask_wave_spec (X : Sig → Sig × Bool) (cosTurn : Rat → Rat) (z amp : Rat) (p : Nat) (x : Sig) :
+    (getNextImfMask X (waveMask cosTurn x.length z amp p) p x).1 =
+      Ensemble.meanOver x.length ((List.range p).map fun i =>
+        Sig.sub (X (Sig.add x (waveMask cosTurn x.length z amp p i))).1 (waveMask cosTurn x.length z amp p i)) :=
+  getNextImfMask_spec X _ p x
+
+/-- For an even number of phases the phase set is closed under the half-turn: mask `i + p/2 (mod p)` is the negated
+    mask `i`.  Derived from the single oracle fact `cos(2π(x + 1/2)) = −cos(2πx)` (validated on the cosine table of
+    every run); this is the hypothesis `Mask.ShiftClosed` of C02's sign-flip law for the masked sift. -/
+theorem mask_shift_closed (cosTurn : Rat → Rat) (hc : ∀ x, cosTurn (x + 1 / 2) = - cosTurn x) (n p : Nat)
+    (heven : p % 2 = 0) : ShiftClosed (unitOf cosTurn n) p :=
+  unitOf_shiftClosed cosTurn hc n p heven
+
 /-- Frequency ladder: with a first frequency `z` (float, or found by `get_mask_freqs`) and step factor `s`,
     there are exactly `cap` mask frequencies and the k-th one is `z / s^k`; the cap is unchanged. -/
 theorem maskFreqs_ladder (z s : Rat) (cap : Nat) :
@@ -130,6 +169,19 @@ theorem maskSift_peel (σ : Nat → Schedule) (nproc : Nat) (X : Sig → Sig × 
     exact ⟨a, f, h1, h2, h3⟩
   · cases h
 
+/-- Peeling with the documented waveform: run on the unit masks of the waveform, every column `k` of `mask_sift`
+    is the masked extraction of the residual with the sinusoidal masks
+    `amp_k·sd_k · cos(2π·freqs[k]·t + 2π·i/nphases)`, `i = 0 … nphases−1`. -/
+theorem maskSift_peel_wave (σ : Nat → Schedule) (nproc : Nat) (X : Sig → Sig × Bool) (cosTurn : Rat → Rat)
+    (std : Sig → Rat) (cfg : Cfg) (src : FreqSrc) (cap : Nat) (x : Sig) (cols : List Sig) (freqs : List Rat)
+    (hσ : ∀ k, (σ k).Valid cfg.p nproc)
+    (h : maskSift σ X (unitOf cosTurn x.length) std cfg src cap x = .ok (cols, freqs)) :
+    ∀ k, k < cols.length → ∃ a f, ampAt cfg.amp k = some a ∧ freqs[k]? = some f ∧
+      cols[k]? = some (getNextImfMask X
+        (waveMask cosTurn x.length f (a * sdFor std cfg.mode x (cols.take k).getLast?) cfg.p) cfg.p
+        (Sig.sub x (Sig.vsum x.length (cols.take k)))).1 :=
+  (maskSift_peel σ nproc X (unitOf cosTurn x.length) std cfg src cap x cols freqs hσ h).2.2.2
+
 /-- The returned mask frequencies are the ladder / the user list, i.e. (by `maskSift_peel`) exactly the
     ones the layers were extracted with; and the number of columns respects the (lowered) cap. -/
 theorem maskSift_returns_used_freqs (σ : Nat → Schedule) (nproc : Nat) (X : Sig → Sig × Bool)
@@ -168,6 +220,11 @@ example : σex.Valid ([3, 4, 5] : List Nat).length 2 := ⟨by decide, fun j _ =>
 -- an extractor and unit masks of the signal's length (hypotheses of the pointwise / zero-amplitude theorems)
 example : ∀ y : Sig, ((fun y : Sig => (y, true)) y).1.length = y.length := fun _ => rfl
 example : ∀ i, i < 4 → ((fun (_ : Nat) => ([1, -1, 1] : Sig)) i).length = ([5, 6, 7] : Sig).length := fun _ _ => rfl
+-- a cosine oracle with the half-turn antisymmetry (`Mask.sqTurn`, a square wave standing in for cos; `Mask.sqTurn_half`):
+-- the hypothesis of `mask_shift_closed` is satisfiable
+example (n : Nat) : ShiftClosed (unitOf sqTurn n) 4 := mask_shift_closed sqTurn sqTurn_half n 4 rfl
+example : waveMask sqTurn 4 (1/4) 3 2 1 = [-3, -3, 3, 3] := by decide +kernel
+example : unitOf sqTurn 4 (1/4) 2 0 = [1, 1, -1, -1] ∧ unitOf sqTurn 4 (1/4) 2 1 = [-1, -1, 1, 1] := by decide +kernel
 -- the ladder of the docstring example: 0.4, step 3
 example : (maskFreqs (.first (2/5) 3) 3).1[2]? = some ((2/5 : Rat) / 3 ^ 2) := (maskFreqs_ladder (2/5) 3 3).2.2 2 (by decide)
 example : (maskFreqs (.list [1/4, 1/8]) 5).2 = 2 := by rw [(maskFreqs_user_list _ _).2]; rfl
